@@ -96,6 +96,24 @@ constexpr auto CT_BSF32 = ct_map<std::uint32_t>(T_U32, [](std::uint32_t x) { ret
 constexpr auto CT_BSF64
     = ct_map<std::uint64_t>(T_U64, [](unsigned long long x) { return etl::detail::byteswap_fallback(static_cast<std::uint64_t>(x)); });
 
+// every 16-bit value (index = value): popcount, byteswap through the builtin and through the fallback
+struct All16 {
+    unsigned char pop[65536]{};
+    std::uint16_t bs[65536]{}, bsf[65536]{};
+};
+constexpr auto compute_all16()
+{
+    All16 r{};
+    for (unsigned v = 0; v < 65536U; ++v) {
+        auto const x = static_cast<std::uint16_t>(v);
+        r.pop[v]     = static_cast<unsigned char>(etl::popcount(x));
+        r.bs[v]      = etl::byteswap(x);
+        r.bsf[v]     = etl::detail::byteswap_fallback(x);
+    }
+    return r;
+}
+constexpr auto CT_ALL16 = compute_all16();
+
 template <typename Int, bool Fallback, typename T, size_t N>
 constexpr auto ct_sat(T const (&tab)[N])
 {
@@ -761,6 +779,16 @@ bool vh::run_case(std::string const& op, Toks& in, Out& impl, Out& ref)
             return true;
         }
         return false;
+    }
+    // ---- all16 <v>: popcount, byteswap, byteswap_fallback of the 16-bit value v
+    if (op == "all16") {
+        auto const v = in.num();
+        if (v < 0 || v > 65535) { return false; }
+        auto const x  = launder(static_cast<std::uint16_t>(v));
+        auto const iv = static_cast<size_t>(v);
+        impl.tok("ok").num(CT_ALL16.pop[iv]).unum(CT_ALL16.bs[iv]).unum(CT_ALL16.bsf[iv]);
+        ref.tok("ok").num(etl::popcount(x)).unum(etl::byteswap(x)).unum(etl::byteswap(x));
+        return true;
     }
     // ---- byteswap / byteswap_fb <w> <idx> <x>: impl = constant evaluation of etl::byteswap resp. of
     //      detail::byteswap_fallback, reference = etl::byteswap at run time (the builtin)
